@@ -20,22 +20,17 @@ CHECKS = {
     'C02': dict(
         technique='explicit-state BFS over well-formed message histories executed on the real log pipeline, '
                   'merged on a reference object table, oracle on every transition',
-        text='All well-formed single-connection histories to the stated depth over 2 client ids, 2 server ids, 3 types '
-             '(create by request/event/bind, delete_id, use, mention, foreign delete_id) are run through the real '
-             'parser/connection/controller; every output line must carry the labels the reference table predicts.',
+        text='Well-formed single-connection histories (create by request/event/bind to two interfaces, delete_id, use, mention, foreign delete_id; client and server side, three timestamp shapes, with and without a leading get_registry) are explored to the stated depth merged on a reference object table AND unmerged to a smaller depth; every output line must carry the labels the reference predicts, the object table is compared through the Connection interface in every state; identifiers closed and reopened are covered by a BFS over the connection-id interface.',
         ref='3/C02', engine='BFS'),
     'C03': dict(
         technique='explicit-state BFS over well-formed histories (client- and server-side logs, several timestamp '
                   'shapes) with a reference lifetime model checked in every reached state',
-        text='Same exploration as C02; in every reached state alive flags of all incarnations, at-most-one-alive per '
-             'id, monotone death, and on every line presence/absence, subject and lifespan of the destruction annotation.',
+        text='Same exploration as C02; in every reached state: alive flags of all incarnations, at most one alive per id, monotone death, presence / subject / lifespan of the destruction annotation on every line, and the listing after the end of input repeats the live lines exactly.',
         ref='3/C03', engine='BFS'),
     'C04': dict(
         technique='exhaustive enumeration of all order-preserving interleavings of per-connection scripts + '
                   'explicit-state BFS over open/message/close on the connection-id interface, run on the real pipeline',
-        text='Every interleaving of 2-4 per-connection scripts that use the same object ids is executed; each '
-             'connection\'s projection must equal its solo run and its reference object table; names/roles/notices/listing '
-             'are checked absolutely. BFS over sink events covers re-opened, unknown and twice-closed ids.',
+        text='Every interleaving of 2-4 per-connection scripts that use the same object ids (also with all-equal timestamps and with strings quoting tagged log lines): each projection equals its solo run and its reference object table; names, roles, notices and the listing are checked absolutely. A BFS over open/message/close on the connection-id interface (merged and unmerged) covers re-opened, unknown and twice-closed ids; the real CLI runs under several hash seeds.',
         ref='3/C04', engine='ILV+BFS'),
     'C14': dict(
         technique='exhaustive enumeration of all letter indexes below 475254 (+ lattice to 26^8) and of every label '
@@ -47,9 +42,7 @@ CHECKS = {
     'C08': dict(
         technique='deviation-bounded exhaustive enumeration (inserted chatter lines at every position, missing final '
                   'newline, truncation at every character) of streams fed to the real parser loop through an instrumented reader',
-        text='For 4 well-formed base streams, every placement of <=1/<=2 chatter lines from an alphabet of 11, both '
-             '--supress settings and every truncation point are executed on the real into_sink; oracle = item-for-item '
-             'conservation against the clean twin, pacing at every readline, prefix + closed notices under truncation.',
+        text='5 well-formed base streams (both tags, empty titles, gaps, strings with brackets), every placement of <=1/<=2 chatter lines from an alphabet of 15 (incl. \\x0c, U+2028, a 20000-character line), both --supress settings, every truncation point, and the real pipe-mode entry point reading one line per read: item-for-item conservation against the clean twin, pacing at every request for input, prefix + closed notices under truncation.',
         ref='3/C08', engine='DEV'),
     'C16': dict(
         technique='exhaustive product enumeration of logs over a microsecond gap lattice x visibility x time shift x '
@@ -69,9 +62,7 @@ CHECKS = {
     'C06': dict(
         technique='explicit-state BFS over message/command histories on the real controller, unmerged to small depth '
                   'and merged deeper, against an unfiltered twin pipeline and a reference filter',
-        text='All histories of message events on two connections and filter/connection commands to the bound, from 4 '
-             'initial filters: after every message the filtered view must have appended exactly the twin\'s line iff the '
-             'reference filter and selection hold; recording is compared in every state.',
+        text="All histories of message events on two connections (matching / non-matching / creating / destroying / on never-created objects / announcing an app id) and filter / connection commands (incl. failing ones) to the bound, from 4 initial filters, unmerged and merged: after every message the filtered view shows exactly the twin's line iff the reference filter and selection hold; the selection shown by the tool is compared with the reference after every command; recording is compared in every state and on a 70 000-message session.",
         ref='3/C06', engine='BFS'),
     'C11': dict(
         technique='exhaustive product enumeration of list queries (history x filter x selection x matcher x cap), '
@@ -83,9 +74,7 @@ CHECKS = {
     'C12': dict(
         technique='exhaustive enumeration of all filter/breakpoint command sequences to the bound from 3 initial '
                   'matchers on the real controller, oracle = accumulated (alternatives, exclusions) reference',
-        text='Every command sequence of length <=3/<=4 over 14 commands (alternatives, exclusions, both, *, !, bracketed, '
-             'malformed, blank) is applied to filter and breakpoint; the live view and the Stopped-at notices over the '
-             'universe must equal the reference accumulation (three-valued), malformed input changes nothing.',
+        text='Every command sequence of length <=3/<=4 over 18 commands (alternatives, exclusions, both, *, !, bracketed, print-alike patterns, malformed incl. non-ASCII, blank) is applied to filter and breakpoint (also with the breakpoint sequence rotated so that the two differ); the live view and the Stopped-at notices over the universe equal the reference accumulation (three-valued); malformed input changes nothing; an explicit `list X` afterwards is judged on X alone.',
         ref='3/C12', engine='BFS'),
     'C17': dict(
         technique='lock-step explicit-state BFS over a (colour on, colour off) pair of real sessions driven by the '
@@ -135,27 +124,19 @@ CHECKS = {
         technique='explicit-state BFS over plugin event histories (messages, wl commands, continue) on the real plugin '
                   'and controller in a GDB API model, merged on the reference pause machine; exhaustive enumeration of '
                   'command lists for the terminal prompt loop',
-        text='In every reached state stop() must return True iff the reference breakpoint (C12 accumulation, hand '
-             'denotations) and selection hold, with exactly one Stopped-at notice; after each command GDB is told quit / '
-             'continue / nothing as the reference says; the prompt loop of file/run mode asks exactly until resume or quit.',
+        text='Plugin event histories (messages incl. orphan objects on two connections, 18 wl commands via `wl` / `wl<cmd>`, continue) from 2 initial breakpoints, merged on the reference pause machine and unmerged: stop() returns True iff the reference breakpoint (C12 accumulation, hand denotations) and selection hold, with exactly one Stopped-at notice; GDB is told quit / continue / nothing as the reference says; selection and breakpoint shown by the tool equal the reference after every command. The prompt loop of file/run mode asks exactly until resume or quit. Thorough: command schedules are played in the real GDB.',
         ref='3/C10', engine='BFS'),
     'C15': dict(
         technique='explicit-state BFS over libwayland events (messages on 2 addresses from 2 threads, destructions of '
                   'known / closed / never-seen connections) on the real plugin in a GDB API model, merged on a reference '
                   'connection registry; depth-4 histories replayed in the real GDB',
-        text='Every event history to depth 5/7: connections open at the first message with the role get_registry '
-             'implies, close on destruction, an address seen again is a new connection with a fresh object table, and '
-             'nothing escapes the breakpoint handlers, which never halt the program.',
+        text='Every event history to depth 5/7 merged on a reference registry and to depth 3/4 unmerged: messages on 2 addresses from 2 threads (first message get_registry sent / received / none, late get_registry, orphan objects), destructions of known / closed / never-seen connections, reconnects at a new address; connections open and close as the reference says with fresh object tables, nothing escapes the breakpoint handlers (disabled breakpoints do not fire, as in GDB), which never halt the program. Thorough: depth-4 histories replayed in the real GDB.',
         ref='3/C15', engine='BFS'),
     'C13': dict(
         technique='stateless exploration of all 2-thread schedules of the real run_program with bounded preemptions '
                   '(settrace baton scheduler, model pipe, scripted child) + deviation-bounded enumeration of short reads + '
                   'the real command line in three modes under several hash seeds',
-        text='Every schedule with <=2/<=3 preemptions (a scheduling point at every line of runner.py and every pipe '
-             'operation) must end without deadlock or assertion, with the file-mode twin\'s output, the child\'s status and '
-             'the prompt after all output; every placement of <=2/<=3 cuts at every byte offset must not change the output; '
-             'the real CLI gives identical stdout/stderr in file, pipe and run mode across hash seeds and returns the '
-             'child\'s exit status.',
+        text="Every 2-thread schedule of the real run_program with <=2/<=3 preemptions (a scheduling point at every line of runner.py and every pipe operation): no deadlock or assertion, the file-mode twin's output, the child's status, the prompt after all output; every placement of <=2/<=3 cuts at every byte offset leaves the output unchanged; the real CLI gives identical stdout/stderr in file, pipe and run mode across hash seeds, with writes split inside a character, marker-like program arguments, any parent WAYLAND_DEBUG, and returns the child's exit status (all 256 in the thorough tier).",
         ref='3/C13', engine='ILV+DEV'),
 }
 
